@@ -1386,3 +1386,54 @@ func ruleCtlRestForward(rule string) ruleFn {
 		}
 	}
 }
+
+// ---------------------------------------------------------------------------
+// C14-WRITENIL: a resource that may not exist is not written as an answer
+// ---------------------------------------------------------------------------
+
+func ruleWriteNil(rule string) ruleFn {
+	return func(c *Ctx) {
+		c.Doc(rule, "REST handlers: a value handed to ApiContext.Write that comes from a look-up of this module which can return nil (getReplica, getQuorumReplica, getVolume: `return nil` for an id that is not a member) is written only on a path on which it was found non-nil - go-rancher's Write panics on a typed nil ('Passed type is not a struct'), the handler dies and the client gets no answer")
+		n := 0
+		for _, pkg := range []string{"controller/rest", "replica/rest"} {
+			for _, fn := range pkgFuncs(c.P, pkg) {
+				for _, in := range AnyCallsTo(fn, "(*github.com/rancher/go-rancher/api.ApiContext).Write") {
+					ci := in.(ssa.CallInstruction)
+					if len(ci.Common().Args) < 2 {
+						continue
+					}
+					v := ci.Common().Args[1]
+					if mi, ok := v.(*ssa.MakeInterface); ok {
+						v = mi.X
+					}
+					cl, ok := v.(*ssa.Call)
+					if !ok {
+						continue
+					}
+					g := cl.Call.StaticCallee()
+					if g == nil || !isJivaFn(g) || g.Blocks == nil {
+						continue
+					}
+					if _, isPtr := g.Signature.Results().At(0).Type().Underlying().(*types.Pointer); g.Signature.Results().Len() != 1 || !isPtr {
+						continue
+					}
+					mayNil := false
+					for _, r := range Returns(g) {
+						if len(r.Results) == 1 && isNilConst(strip(r.Results[0])) {
+							mayNil = true
+						}
+					}
+					if !mayNil {
+						continue
+					}
+					n++
+					_, nonNil := nilTestEdges(fn, cl)
+					c.Guard(rule, fn, []ssa.Instruction{in}, "write "+FnName(g)+"(…) as the answer", nil, Need{Desc: "the looked-up resource was found (non-nil)", Edge: nonNil})
+				}
+			}
+		}
+		if n < 3 {
+			c.Undecided(rule, "vacuity-floor", "", fmt.Sprintf("only %d answers from nil-able look-ups found", n))
+		}
+	}
+}
